@@ -36,6 +36,8 @@ func runC05(p *eng.Prog, r *eng.Report, tier string) {
 	// text marshalers of the stanza type enumerations handle every constant
 	closedBitBeforeWrites(c, "C05.14")
 	handlerWriterKeepsTheLock(c, "C05.15")
+	attrGetNotUsed(c, "C05.16")
+	c05ContentNamespaceFromRole(c, "C05.17")
 	nEnum := enumExhaustive(c, "C05.13", []string{"stanza"})
 	c.r.Floor("C05.13", "enumeration methods in package stanza", nEnum, 2)
 	c05Send(c)
@@ -922,4 +924,37 @@ func handlerWriterKeepsTheLock(c *cx, id string) {
 		c.r.Check(id, f, "writer handed to handlers releases nothing", "C: the output lock a handler's writer holds is released by the serve loop after the handler returned, never by a method of the writer itself", f.Pos(), bad == "", bad+": the rest of the handler's element is written after other senders had access to the stream")
 	}
 	c.r.Floor(id, "methods of the handler writer types", nm, 5)
+}
+
+// c05ContentNamespaceFromRole (C05.17): the namespace the stanza encoder
+// stamps on outgoing stanzas - and whether it adds a from address - is the
+// output stream's content namespace, which the negotiator stores in
+// out.XMLNS. It follows the session's own S2S bit, never what the peer
+// declared: jabber:server is stored only behind the S2S test, jabber:client
+// only behind its negation.
+func c05ContentNamespaceFromRole(c *cx, id string) {
+	neg := c.fn(id, "", "negotiator")
+	if neg == nil {
+		return
+	}
+	f := c.lit(id, neg, 1)
+	if f == nil {
+		return
+	}
+	n := 0
+	for _, w := range f.Writes() {
+		if cls, ok := f.FieldClass(w.LHS); !ok || cls != "stream.Info.XMLNS" || w.RHS == nil {
+			continue
+		}
+		n++
+		switch v := f.Norm(w.RHS, nil); v {
+		case "stanza.NSServer":
+			c.domAny(id, f, w.Stmt, "content namespace jabber:server", []string{"all(xmpp.Session.State[*](),xmpp.S2S)", "all(*.state,xmpp.S2S)"})
+		case "stanza.NSClient":
+			c.domAny(id, f, w.Stmt, "content namespace jabber:client", []string{"!all(xmpp.Session.State[*](),xmpp.S2S)", "!all(*.state,xmpp.S2S)"})
+		default:
+			c.r.Check(id, f, "content namespace "+v, "K: the content namespace of the output stream is one of the two stanza namespaces, chosen by the session's S2S bit", w.Stmt.Pos(), false, "stored from "+v)
+		}
+	}
+	c.r.Floor(id, "stores of the output stream's content namespace", n, 4)
 }
